@@ -57,6 +57,8 @@ def main():
             ran["checks"][m.group(1)] = {"rc": int(m.group(2)), "output": m.group(3).strip()[:400],
                                          "caught": int(m.group(2)) != 0 and "VIOLATION" in m.group(3)}
     meta["seed_id"] = sid
+    import subprocess
+    meta["base_commit"] = subprocess.run(["git", "-C", "/repo", "rev-parse", "HEAD"], capture_output=True, text=True).stdout.strip()
     meta["confirmed"] = {
         "how": "tools/seeded_verify.sh: scratch worktree of /repo HEAD; demo.sh on the clean tree; git apply patch.diff; "
                "cargo nextest run --workspace (pinned suite); demo.sh on the patched tree; ./check <ID> quick against the "
